@@ -7,7 +7,7 @@ import numpy as np
 
 from harness.core import R, close
 
-METRICS = ["sel", "tpr", "fpr", "fnr", "tnr", "acc", "prec", "zol", "smean"]
+METRICS = ["sel", "tpr", "fpr", "fnr", "tnr", "acc", "prec", "zol", "smean", "precn"]
 SIGNED = {"smean"}
 # group id -> concrete label; sort order (alphabetical) differs from the id order
 GLABEL = {1: "m_one", 2: "z_two", 3: "a_three", 4: "k_four", 5: "b_five"}
@@ -33,9 +33,11 @@ def metric_fns():
     import functools
     prec = functools.partial(skm.precision_score, zero_division=0)
     prec.__name__ = "precision0"
+    precn = functools.partial(skm.precision_score, zero_division=np.nan)       # NaN on a non-empty group without predicted positives
+    precn.__name__ = "precision_nan"
     return {"sel": fm.selection_rate, "tpr": fm.true_positive_rate, "fpr": fm.false_positive_rate,
             "fnr": fm.false_negative_rate, "tnr": fm.true_negative_rate, "acc": skm.accuracy_score,
-            "prec": prec, "zol": skm.zero_one_loss, "smean": signed_mean}
+            "prec": prec, "zol": skm.zero_one_loss, "smean": signed_mean, "precn": precn}
 
 
 def order_for(case_rows, seed, which):
